@@ -183,6 +183,7 @@ type Frame struct {
 	ghosts      map[string]Value
 	whereSym    *Term
 	iter        map[int]*Term // ghost iteration counter of each loop (by ordinal), as seen at the current point
+	autoInv     map[*LoopInfo][]*autoInv
 }
 
 type deferRec struct {
@@ -1015,12 +1016,14 @@ func (x *Exec) enterLoop(fr *Frame, li *LoopInfo, cur *State) {
 	x.vc.assume(iGe(itSym, IntLit(0)))
 	fr.iter[li.Ordinal] = itSym
 	prefixes, all := x.loopModified(fr, li)
+	entryVals := map[*ssa.Phi]Value{}
 	for _, ins := range b.Instrs {
 		phi, ok := ins.(*ssa.Phi)
 		if !ok {
 			break
 		}
 		old := fr.env[phi]
+		entryVals[phi] = old
 		nv := x.havocLike(cur, old, fmt.Sprintf("f%d.%s@L%d", fr.id, phi.Name(), li.Ordinal))
 		fr.env[phi] = nv
 	}
@@ -1069,7 +1072,14 @@ func (x *Exec) enterLoop(fr *Frame, li *LoopInfo, cur *State) {
 			cur.H[k] = nw
 		}
 	}
-	// 3. assume invariants
+	// 3. assume invariants (derived counting-loop facts first; they are checked on the back edges like the rest)
+	if fr.autoInv == nil {
+		fr.autoInv = map[*LoopInfo][]*autoInv{}
+	}
+	fr.autoInv[li] = x.findAutoInvs(fr, li, entryVals)
+	for _, a := range fr.autoInv[li] {
+		x.vc.assume(Implies(cur.Reach, a.term(x, fr, cur)))
+	}
 	for _, inv := range spec.Invariants {
 		env := x.loopEnv(fr, li, cur)
 		x.vc.assume(Implies(cur.Reach, env.evalBool(inv.Expr)))
@@ -1269,6 +1279,10 @@ func (x *Exec) closeLoop(fr *Frame, li *LoopInfo, from *ssa.BasicBlock, st *Stat
 		saved[phi] = fr.env[phi]
 		nv.T = phi.Type()
 		fr.env[phi] = nv
+	}
+	for _, a := range fr.autoInv[li] {
+		o := x.vc.oblige(fmt.Sprintf("inv.%d.auto", li.Ordinal), Implies(st.Reach, a.term(x, fr, st)), pos, fmt.Sprintf("loop %d %s", li.Ordinal, a.describe()))
+		o.Clause = a.describe()
 	}
 	for k, inv := range spec.Invariants {
 		env := x.loopEnv(fr, li, st).asGoal()
